@@ -74,6 +74,11 @@ def r17_1(run):
                              and norm(kw(r.value, "order") or ast.Constant(0)) == "order" for r in rets)
     run.ob("R17.1", loc(asa, asa.node), asa.short, "asarray unwraps a tensor's .data and defers to np.asarray(a, dtype=, order=)", ok and ok2,
            "no copy unless NumPy needs one" if ok and ok2 else "asarray does not reuse the tensor's memory / drops dtype or order")
+    d = _defaults(asa.node)
+    ok = d.get("dtype") == "None" and d.get("order") == "None"
+    run.ob("R17.1", loc(asa, asa.node), asa.short, "asarray defaults are NumPy's (dtype=None, order=None)", ok,
+           "no layout/dtype is requested unless the caller asks" if ok else
+           f"defaults {d}: a default order/dtype forces a copy of inputs that do not already have it (memory is not reused)")
     # Tensor.__init__ copy handling (NumPy 2)
     cfgi = build_cfg(run, init, {"NP_IS_V2": True, "not NP_IS_V2": False})
     stores = [n for n in own_nodes(init.node) if isinstance(n, ast.Assign) and any(norm(t_) == "self.data" for t_ in n.targets)
